@@ -1,9 +1,11 @@
 (* C10 — executable model of litep2p's peer address book:
      src/transport/manager/handle.rs   supported_transport, is_local_address, add_known_address
      src/transport/manager/address.rs  AddressRecord::new, AddressStore::{insert, addresses}
-     src/transport/manager/mod.rs      update_address_on_dial_failure,
-                                       update_address_on_connection_established,
-                                       supported_transports_addresses (routing of dial(peer))
+     src/transport/manager/mod.rs      register_listen_address, dial(peer) (capacity, selection,
+                                       routing to the transports' open()), the address updates
+                                       of the DialFailure / OpenFailure / ConnectionOpened /
+                                       ConnectionEstablished events
+     src/transport/manager/limits.rs   on_dial_address (free outbound capacity)
      src/transport/common/listener.rs  multiaddr_to_socket_address (TCP and WebSocket)
      src/transport/quic/listener.rs    get_socket_address
    Definitions only; proofs are in Proofs.v.
@@ -17,9 +19,10 @@
    - a /p2p component always carries a valid peer id (guaranteed by multiaddr 0.18's type
      `Protocol::P2p(PeerId)`);
    - the per-peer HashMap<Multiaddr, AddressRecord> is an association list; where the
-     implementation's result depends on HashMap iteration order (which of several minimal
-     records is evicted, order of equal scores in `addresses(limit)`) the implementation's choice
-     is an input of the model step and is validated, never guessed;
+     implementation's result depends on HashMap / HashSet iteration order (which of several
+     minimal records is evicted, order of equal scores in `addresses(limit)`, order in which one
+     add_known_address call inserts its addresses) the implementation's choice is an input of
+     the model step and is validated, never guessed;
    - scores are integers (Z) with i32 saturation written out. *)
 From Coq Require Import List NArith ZArith Bool.
 From V.gen Require Consts.
@@ -85,7 +88,7 @@ Record cfg := mkCfg {
   en_ws : bool;
   en_quic : bool;
   local_peer : N;
-  listen : list maddr        (* addresses given to register_listen_address (no /p2p) *)
+  max_out : option nat       (* ConnectionLimitsConfig::max_outgoing_connections *)
 }.
 
 Inductive transport := TTcp | TWs | TQuic.
@@ -149,8 +152,8 @@ Definition extract_ip_port (a : maddr) : option (ipaddr * N) :=
   end.
 
 (* the set kept by register_listen_address: each address with and without /p2p/<local> *)
-Definition listen_set (c : cfg) : list maddr :=
-  flat_map (fun l => [l; l ++ [P2p (local_peer c)]]) (listen c).
+Definition listen_set (c : cfg) (ls : list maddr) : list maddr :=
+  flat_map (fun l => [l; l ++ [P2p (local_peer c)]]) ls.
 
 Definition local_match (ip : ipaddr) (port : N) (l : maddr) : bool :=
   match extract_ip_port l with
@@ -162,26 +165,27 @@ Definition local_match (ip : ipaddr) (port : N) (l : maddr) : bool :=
        || (is_loop (ip_class lip) && is_loop (ip_class ip)))
   end.
 
-Definition is_local (c : cfg) (a : maddr) : bool :=
+(* ls: the addresses given to register_listen_address so far (none contains /p2p) *)
+Definition is_local (c : cfg) (ls : list maddr) (a : maddr) : bool :=
   let a' := strip_p2p a in
-  if existsb (maddr_eqb a') (listen_set c) then true
+  if existsb (maddr_eqb a') (listen_set c ls) then true
   else match extract_ip_port a' with
        | None => false
-       | Some (ip, port) => existsb (local_match ip port) (listen_set c)
+       | Some (ip, port) => existsb (local_match ip port) (listen_set c ls)
        end.
 
 (* ---------- handle.rs: add_known_address, the per-address filter ---------- *)
 
 (* Some a' : the address is accepted and a' is what is handed to the store *)
-Definition normalise (c : cfg) (peer : N) (a : maddr) : option maddr :=
+Definition normalise (c : cfg) (ls : list maddr) (peer : N) (a : maddr) : option maddr :=
   if negb (supported c a) then None
-  else if is_local c a then None
+  else if is_local c ls a then None
   else match last a (Other 0) with
        | P2p q => if N.eqb q peer then Some a else None
        | _ => Some (a ++ [P2p peer])
        end.
 
-(* HashSet<Multiaddr>: distinct accepted addresses (order is irrelevant, see the guard in step) *)
+(* HashSet<Multiaddr>: the distinct accepted addresses (in no particular order) *)
 Fixpoint dedup (l : list maddr) : list maddr :=
   match l with
   | [] => []
@@ -194,8 +198,8 @@ Fixpoint filter_map {A B} (f : A -> option B) (l : list A) : list B :=
   | x :: t => match f x with Some y => y :: filter_map f t | None => filter_map f t end
   end.
 
-Definition accepted (c : cfg) (peer : N) (l : list maddr) : list maddr :=
-  dedup (filter_map (normalise c peer) l).
+Definition accepted (c : cfg) (ls : list maddr) (peer : N) (l : list maddr) : list maddr :=
+  dedup (filter_map (normalise c ls peer) l).
 
 (* ---------- the transports' own parsers ---------- *)
 
@@ -430,24 +434,56 @@ Fixpoint put (p : N) (s : store) (b : book) : book :=
 Definition get_or_empty (p : N) (b : book) : store :=
   match get p b with Some s => s | None => [] end.
 
+(* ---------- the state: books, listen addresses, outbound connections held ---------- *)
+
+Record state := mkState {
+  bk : book;
+  lst : list maddr;      (* register_listen_address calls so far *)
+  held : nat             (* established outbound connections counted by ConnectionLimits *)
+}.
+
+Definition init : state := mkState [] [] 0.
+Definition set_bk (st : state) (b : book) : state := mkState b (lst st) (held st).
+
 (* ---------- operations ---------- *)
 
 Inductive failure := ConnFailure | AddrFailure.
 
 Inductive op :=
-| OAdd (peer : N) (addrs : list maddr) (victims : list maddr)     (* add_known_address *)
+| OAdd (peer : N) (addrs : list maddr) (order : list maddr) (victims : list maddr)
+      (* add_known_address; order = the order in which the implementation's HashSet yielded the
+         accepted addresses, victims = the records it evicted, in order *)
 | ODialFailure (a : maddr) (f : failure) (victim : option maddr) (* update_address_on_dial_failure *)
 | OEstablished (peer : N) (a : maddr) (listener : bool) (victim : option maddr)
                                                    (* update_address_on_connection_established *)
-| ODialAddrs (peer : N) (limit : nat) (obs : list maddr)         (* addresses(limit) as in dial(peer) *)
-| OProbe (a : maddr).                                            (* stateless: filters and parsers *)
+| ODialAddrs (peer : N) (limit : nat) (obs : list maddr)         (* AddressStore::addresses(limit) *)
+| OProbe (a : maddr)                                             (* stateless: filters and parsers *)
+| OListen (a : maddr)                                            (* register_listen_address *)
+| OHold (n : nat)         (* bring the number of established outbound connections (to other peers) to n *)
+| ODial (peer : N) (outcome : nat) (tcp ws : list maddr).
+      (* dial(peer) end to end; tcp / ws = the address lists the implementation handed to the
+         open() of the TCP / WebSocket transport; outcome 0: every attempt times out, j+1: the
+         attempt on address j of tcp ++ ws succeeds after the ones before it on the same transport
+         timed out, the connection is established and closed again *)
+
+Inductive dial_result :=
+| DLimit                 (* no free outbound capacity *)
+| DSelf                  (* TriedToDialSelf *)
+| DNoAddress             (* NoAddressAvailable *)
+| DUnroutable            (* the store holds an address of a transport that is not installed, or one
+                            that does not name the peer (possible only through ill-formed dial
+                            results): the call is skipped *)
+| DBadChoice             (* the supplied open() lists are not a valid selection *)
+| DTried (tcp ws : store).
 
 Inductive out :=
 | RAdd (n : N) (bad : bool)
-| RUnordered                      (* multi-address add that could evict: order-dependent, skipped *)
 | RIns (r : option ins)
 | RAddrs (l : option store)
-| RProbe (sup : bool) (rt : transport) (ptcp pws pquic : option parsed) (loc : bool).
+| RProbe (sup : bool) (rt : transport) (ptcp pws pquic : option parsed) (loc : bool)
+| RListen
+| RHold (n : nat)
+| RDial (r : dial_result).
 
 (* inserting a list of fresh records with score 0, consuming one victim per eviction *)
 Fixpoint insert_all (k : scorecfg) (s : store) (l : list maddr) (victims : list maddr)
@@ -465,45 +501,134 @@ Fixpoint insert_all (k : scorecfg) (s : store) (l : list maddr) (victims : list 
 Definition failure_score (k : scorecfg) (f : failure) : Z :=
   match f with ConnFailure => sc_failure k | AddrFailure => sc_addr_failure k end.
 
-Definition step (c : cfg) (k : scorecfg) (b : book) (o : op) : book * out :=
+(* `order` enumerates exactly the set `acc` *)
+Definition same_set (order acc : list maddr) : bool :=
+  (length order =? length acc)%nat && nodup_addrs order &&
+  forallb (fun a => existsb (maddr_eqb a) acc) order.
+
+(* ---- dial(peer) ---- *)
+
+Definition mem (a : maddr) (s : store) : bool :=
+  match find a s with Some _ => true | None => false end.
+Definition names (p : N) (a : maddr) : bool :=
+  match last a (Other 0) with P2p q => N.eqb q p | _ => false end.
+
+Definition with_scores (s : store) (l : list maddr) : store :=
+  map (fun a => (a, match find a s with Some z => z | None => 0 end)) l.
+
+(* merging two lists by non-increasing score *)
+Fixpoint merge_desc (l1 : store) : store -> store :=
+  fix inner (l2 : store) : store :=
+    match l1, l2 with
+    | [], _ => l2
+    | _, [] => l1
+    | x :: t1, y :: t2 => if snd x <? snd y then y :: inner t2 else x :: merge_desc t1 l2
+    end.
+
+(* limits.rs on_dial_address: None = MaxOutgoingConnectionsExceeded; usize::MAX is "everything" *)
+Definition free_capacity (c : cfg) (st : state) (n : nat) : option nat :=
+  match max_out c with
+  | Some m => if (m <=? held st)%nat then None else Some (m - held st)%nat
+  | None => Some n
+  end.
+
+(* every attempt in l timed out *)
+Fixpoint fail_all (k : scorecfg) (s : store) (l : list maddr) : store :=
+  match l with
+  | [] => s
+  | a :: t => fail_all k (fst (insert k s a (sc_failure k) None)) t
+  end.
+
+(* the attempt on element j of l succeeds after the earlier ones timed out: the errors of the
+   ConnectionOpened event, then on_connection_opened and on_connection_established *)
+Definition succeed_at (k : scorecfg) (s : store) (peer : N) (l : list maddr) (j : nat) : store :=
+  let s1 := fail_all k s (firstn j l) in
+  match nth_error l j with
+  | Some a =>
+      let s2 := fst (insert k s1 (with_peer peer a) (sc_established k) None) in
+      fst (insert k s2 (with_peer peer a) (sc_established k) None)
+  | None => s1
+  end.
+
+Definition dial_outcome (k : scorecfg) (s : store) (peer : N) (outcome : nat) (tcp ws : list maddr)
+  : store :=
+  match outcome with
+  | O => fail_all k (fail_all k s tcp) ws
+  | S j0 =>
+      let n := (length tcp + length ws)%nat in
+      let j := (j0 mod n)%nat in
+      if (j <? length tcp)%nat then succeed_at k s peer tcp j
+      else succeed_at k s peer ws (j - length tcp)
+  end.
+
+Definition step (c : cfg) (k : scorecfg) (st : state) (o : op) : state * out :=
+  let b := bk st in
   match o with
-  | OAdd peer addrs victims =>
+  | OAdd peer addrs order victims =>
       let s := get_or_empty peer b in
-      (* several addresses in one call are inserted in HashSet order: only modelled when no
-         eviction can happen, i.e. when the result does not depend on that order *)
-      if (2 <=? length addrs)%nat && (cap k <? length s + length addrs)%nat
-      then (b, RUnordered)
-      else
-        let acc := accepted c peer addrs in
-        let '(s', bad) := insert_all k s acc victims in
-        (put peer s' b, RAdd (N.of_nat (length acc)) bad)
+      let acc := accepted c (lst st) peer addrs in
+      if same_set order acc then
+        let '(s', bad) := insert_all k s order victims in
+        (set_bk st (put peer s' b), RAdd (N.of_nat (length acc)) bad)
+      else (st, RAdd (N.of_nat (length acc)) true)
   | ODialFailure a f victim =>
       match last a (Other 0) with
       | P2p p =>
           let '(s', r) := insert k (get_or_empty p b) (with_peer p a) (failure_score k f) victim in
-          (put p s' b, RIns (Some r))
-      | _ => (b, RIns None)
+          (set_bk st (put p s' b), RIns (Some r))
+      | _ => (st, RIns None)
       end
   | OEstablished peer a listener victim =>
-      if listener then (b, RIns None)
+      if listener then (st, RIns None)
       else
         let '(s', r) := insert k (get_or_empty peer b) (with_peer peer a) (sc_established k) victim in
-        (put peer s' b, RIns (Some r))
+        (set_bk st (put peer s' b), RIns (Some r))
   | ODialAddrs peer limit obs =>
       let s := get_or_empty peer b in
-      let obs' := map (fun a => (a, match find a s with Some z => z | None => 0 end)) obs in
-      (b, RAddrs (if addresses_ok limit s obs' then Some obs' else None))
+      let obs' := with_scores s obs in
+      (st, RAddrs (if addresses_ok limit s obs' then Some obs' else None))
   | OProbe a =>
-      (b, RProbe (supported c a) (route c a) (parse TTcp a) (parse TWs a) (parse TQuic a)
-                 (is_local c a))
+      (st, RProbe (supported c a) (route c a) (parse TTcp a) (parse TWs a) (parse TQuic a)
+                  (is_local c (lst st) a))
+  | OListen a => (mkState b (lst st ++ [a]) (held st), RListen)
+  | OHold n =>
+      (* connections are established through an installed transport and accepted only while
+         below the outbound limit *)
+      if en_tcp c || (feat_ws c && en_ws c) then
+        let n' := match max_out c with Some m => Nat.min n m | None => n end in
+        (mkState b (lst st) n', RHold n')
+      else (st, RHold (held st))
+  | ODial peer outcome tcp ws =>
+      let s := get_or_empty peer b in
+      (* the harness does not call dial(peer) for a store it could wedge on *)
+      if existsb (fun x => negb (enabled c (route c (fst x)) && names peer (fst x))) s
+      then (st, RDial DUnroutable) else
+      match free_capacity c st (length s) with
+      | None => (st, RDial DLimit)
+      | Some limit =>
+          if N.eqb peer (local_peer c) then (st, RDial DSelf)
+          else match s with
+               | [] => (st, RDial DNoAddress)
+               | _ =>
+                   let t := with_scores s tcp in
+                   let w := with_scores s ws in
+                   if forallb (fun a => mem a s) (tcp ++ ws) &&
+                      forallb (fun a => match route c a with TTcp => true | _ => false end) tcp &&
+                      forallb (fun a => match route c a with TWs => true | _ => false end) ws &&
+                      addresses_ok limit s (merge_desc t w)
+                   then (set_bk st (put peer (dial_outcome k s peer outcome tcp ws) b),
+                         RDial (DTried t w))
+                   else (st, RDial DBadChoice)
+               end
+      end
   end.
 
-Fixpoint run (c : cfg) (k : scorecfg) (b : book) (h : list op) : book * list out :=
+Fixpoint run (c : cfg) (k : scorecfg) (st : state) (h : list op) : state * list out :=
   match h with
-  | [] => (b, [])
+  | [] => (st, [])
   | o :: t =>
-      let '(b1, r) := step c k b o in
-      let '(b2, rs) := run c k b1 t in (b2, r :: rs)
+      let '(st1, r) := step c k st o in
+      let '(st2, rs) := run c k st1 t in (st2, r :: rs)
   end.
 
-Definition final (c : cfg) (k : scorecfg) (h : list op) : book := fst (run c k [] h).
+Definition final (c : cfg) (k : scorecfg) (h : list op) : state := fst (run c k init h).
